@@ -1,6 +1,7 @@
 package engine
 
 import (
+	"sync/atomic"
 	"encoding/json"
 	"fmt"
 	"net"
@@ -100,6 +101,8 @@ func runInto(t *testing.T, sc *Scenario, res *Result) {
 			}
 		}()
 		res.G0 = runtime.NumGoroutine()
+		Running.Store(true)
+		defer Running.Store(false)
 		synctest.Test(t, func(t *testing.T) {
 			h := &harness{sc: sc, qs: map[[2]int]chan os.Signal{}}
 			var bc []netip.Addr
@@ -397,6 +400,9 @@ func (h *harness) checkpoint(tag string, g0 int) {
 	}
 	h.point(tag, -1, map[string]int{"goroutines": extra, "sockets": open})
 }
+
+// Running: a simulated run is in progress (read by the worker's watchdog).
+var Running atomic.Bool
 
 type kept struct {
 	step int
